@@ -106,6 +106,12 @@ Plan decode(Tape &t, long sweep)
   static const int in_types[] = { REPROC_REDIRECT_DEFAULT, REPROC_REDIRECT_PIPE, REPROC_REDIRECT_PARENT, REPROC_REDIRECT_DISCARD, REPROC_REDIRECT_HANDLE, REPROC_REDIRECT_FILE, REPROC_REDIRECT_PATH };
   static const int err_types[] = { REPROC_REDIRECT_DEFAULT, REPROC_REDIRECT_PIPE, REPROC_REDIRECT_PARENT, REPROC_REDIRECT_DISCARD, REPROC_REDIRECT_HANDLE, REPROC_REDIRECT_FILE, REPROC_REDIRECT_PATH, REPROC_REDIRECT_STDOUT };
   long k = sweep;
+  // named regression cases, independent of the tier: 1e9 + (redirect index) * 1000 + (fault index)
+  long named_fault = -1;
+  if (sweep >= 1000000000L) {
+    named_fault = (sweep - 1000000000L) % 1000;
+    k = (sweep - 1000000000L) / 1000 % (7 * 7 * 8);
+  }
   if (sweep >= 0) {
     p.type[0] = in_types[k % 7];
     k /= 7;
@@ -143,6 +149,7 @@ Plan decode(Tape &t, long sweep)
     long f = k % per;
     // quick: four passes over the redirect space - one fault-free, three with a fault picked by the index
     if (fw::tier() != "thorough" && k > 0) f = 1 + (long) (mix((uint64_t) sweep, 77) % (uint64_t) (per - 1));
+    if (named_fault >= 0) f = named_fault % per;
     if (f == 0) p.fault_kind = 0;
     else if (f <= 24) {
       p.fault_kind = 1;
